@@ -9,6 +9,7 @@ import traceback
 from . import extract as X
 from .prog import Program, AnchorMissing
 from .paths import TooManyPaths
+from . import cursor
 
 VERIF = X.VERIF
 
@@ -144,6 +145,7 @@ def run_property(prop, tier, rule_mod, configs, replay=None, selftest=None):
             path, info = X.extract(c)
             infos[c] = info
             progs[c] = Program(path)
+            cursor.register_local_parsers(progs[c])
     except X.BuildFailed as e:
         print("check: /repo does not build with the analysis driver (config %s):\n%s" % (c, e))
         return 2
